@@ -99,6 +99,19 @@ def run_impl_case(op, rep, sizes):
     return r[0], r[1], r[2], r[5]
 
 
+FOLLOW = ((3, b"zz", b"dflt"), b"VALUE zz 0 1\r\nF\r\nEND\r\n")
+# scenarios whose scripted reply holds MORE than the operation's reply (bytes after the end token: no server sends them; they are in
+# the corpus to test where a single read stops).  What is left over there depends on the cut by design, so no following call.
+OVERSUPPLIED = {((16, b"x", b"\r\n"), b"ab\r\ncd\r\n"), ((16, b"x", b"XYXZ"), b"aXYXYXZb")}
+
+
+def run_follow_case(op, rep, sizes):
+    """the call under test, then one more call on the same client whose own reply arrives in one piece: what THAT call returns must
+    not depend on how the first reply was cut up either (nothing of the first reply may be left behind or over-read)"""
+    r = cs.run_impl(CFG, [op, FOLLOW[0]], [], sizes, [rep, FOLLOW[1]])
+    return r[0]
+
+
 def correspondence(ctx):
     cl = cases(ctx)
     hk = cs.handler_kinds()
@@ -137,13 +150,32 @@ def search(ctx):
             found.append({"clause": "result differs from the one-piece delivery", "input": {"op": repr(op), "reply": repr(rep)[:200], "chunks": sizes[:60]},
                           "observed": repr((got[0], got[2], got[3]))[:300], "expected": repr((exp[0], exp[2], b""))[:300], "size": len(sizes) * 1000 + len(rep),
                           "case": repr((op, rep, sizes)) if len(rep) < 200 else None})
-    ctx.search_summary = {"segmentations_checked": len(cl), "scenarios": len(ref)}
+    # ... and the same with a further call on the same connection
+    ref2, nf = {}, 0
+    for op, rep, sizes in cl[::3]:
+        key = (repr(op), rep)
+        if (repr(op), rep) in {(repr(o), r) for o, r in OVERSUPPLIED}:
+            continue
+        if key not in ref2:
+            ref2[key] = run_follow_case(op, rep, [])
+        nf += 1
+        got = run_follow_case(op, rep, sizes)
+        if got != ref2[key]:
+            found.append({"clause": "the NEXT call on the connection returns something else than after the one-piece delivery", "input": {"op": repr(op), "reply": repr(rep)[:200], "chunks": sizes[:60],
+                          "next_call": repr(FOLLOW[0])}, "observed": repr(got)[:300], "expected": repr(ref2[key])[:300], "size": len(sizes) * 1000 + len(rep),
+                          "follow_case": repr((op, rep, sizes)) if len(rep) < 200 else None, "case": None})
+    ctx.search_summary = {"segmentations_checked": len(cl), "scenarios": len(ref), "with_a_following_call": nf}
     found.sort(key=lambda v: v["size"])
     return found[:1]
 
 
 def replay(ctx, obj):
     v = obj.get("violation")
+    if v and v.get("follow_case"):
+        op, rep, sizes = eval(v["follow_case"])
+        got, exp = run_follow_case(op, rep, sizes), run_follow_case(op, rep, [])
+        print("chunks", sizes, "->", got, "| one piece ->", exp)
+        return got != exp
     if not v or not v.get("case"):
         return None
     op, rep, sizes = eval(v["case"])
